@@ -152,6 +152,96 @@ class WMSGetMap(Harness):
         return ok
 
 
+class Reprojected(Harness):
+    """a request in an SRS the upstream does not support: the upstream is asked in a supported SRS (never in the client's),
+    for a rectangle inside the coverage and inside the reprojected request rectangle.  The projection itself (proj, FFI) is an
+    axis-aligned affine stub; request origin and coverage rectangle are solver variables."""
+    modules = ['mapproxy.grid', 'mapproxy.image', 'mapproxy.layer', 'mapproxy.util.coverage', 'mapproxy.source.wms']
+    functions = ['WMSSource.get_map', 'WMSSource._get_map', 'WMSSource._get_transformed', 'WMSSource._get_sub_query', 'bbox_position_in_image']
+    merge_bool = True
+
+    @classmethod
+    def build(cls, L, cfg):
+        ctx = WMSGetMap.build.__func__(cls, L, cfg)
+        ctx['w'].__dict__['ImageTransformer'] = lambda a, b: type('T', (), {'transform': staticmethod(lambda img, *x, **k: img)})()
+        return ctx
+
+    @classmethod
+    def inputs(cls, ctx, cfg):
+        qx0, qy0 = real_var('qx0'), real_var('qy0')
+        c = [real_var(n) for n in ('cx0', 'cy0', 'cx1', 'cy1')]
+        lim = 10 ** 6
+        assume(AND(qx0 >= -lim, qx0 <= lim, qy0 >= -lim, qy0 <= lim, c[0] >= -lim, c[1] >= -lim, c[2] <= lim, c[3] <= lim,
+                   c[2] - c[0] >= 1, c[3] - c[1] >= 1))
+        return dict(qx0=qx0, qy0=qy0, cov=c)
+
+    @classmethod
+    def prop(cls, ctx, cfg, qx0, qy0, cov):
+        w, g, ly, covm = ctx['w'], ctx['g'], ctx['ly'], ctx['cov']
+        W, H = cfg['size']
+        res = cfg['res']
+        sx, sy, ox, oy = cfg['affine']
+
+        class Srs(object):
+            def __init__(self, code, fwd):
+                self.srs_code, self.fwd = code, fwd
+
+            def _map(self, other, x, y):
+                if other is self:
+                    return x, y
+                return (sx * x + ox, sy * y + oy) if self.fwd else ((x - ox) / sx, (y - oy) / sy)
+
+            def transform_bbox_to(self, other, b, with_points=16):
+                x0, y0 = self._map(other, b[0], b[1])
+                x1, y1 = self._map(other, b[2], b[3])
+                return (x0, y0, x1, y1)
+
+            def transform_to(self, other, p):
+                return self._map(other, p[0], p[1])
+
+            def __eq__(self, o):
+                return o is self
+
+            def __ne__(self, o):
+                return o is not self
+
+            __hash__ = object.__hash__
+        client_srs, up_srs = Srs('CLIENT', True), Srs('UPSTREAM', False)
+
+        class Sup(object):
+            def __iter__(self):
+                return iter([up_srs])
+
+            def best_srs(self, target):
+                return up_srs
+
+            def __bool__(self):
+                return True
+        ev = []
+        coverage = covm.BBOXCoverage(tuple(cov), up_srs) if cfg['coverage'] else None
+        src = w.WMSSource(RecClient(ev), image_opts=_Opts(None), coverage=coverage, supported_srs=Sup(), supported_formats=[], fwd_req_params=set())
+        src.opacity = None
+        qbbox = (qx0, qy0, qx0 + W * res, qy0 + H * res)
+        query = ly.MapQuery(qbbox, (W, H), client_srs, 'image/png', dimensions={})
+        ub = client_srs.transform_bbox_to(up_srs, qbbox)
+        inter = AND(cov[0] < ub[2], cov[2] > ub[0], cov[1] < ub[3], cov[3] > ub[1]) if cfg['coverage'] else True
+        try:
+            src.get_map(query)
+        except ly.BlankImage:
+            return not ev
+        if len(ev) != 1:
+            return False
+        _, q, fmt = ev[0]
+        ok = AND(inter, q.srs is up_srs, q.size[0] >= 1, q.size[1] >= 1)
+        tol = 1e-6
+        ok = AND(ok, q.bbox[0] >= ub[0] - tol, q.bbox[1] >= ub[1] - tol, q.bbox[2] <= ub[2] + tol, q.bbox[3] <= ub[3] + tol)
+        if cfg['coverage']:
+            tolx = (cov[2] - cov[0]) / 10e12 + tol
+            toly = (cov[3] - cov[1]) / 10e12 + tol
+            ok = AND(ok, q.bbox[0] >= cov[0] - tolx, q.bbox[1] >= cov[1] - toly, q.bbox[2] <= cov[2] + tolx, q.bbox[3] <= cov[3] + toly)
+        return ok
+
+
 class FwdDimensions(Harness):
     """WMSClient._query_req forwards only the configured dimension parameters."""
     modules = ['mapproxy.layer', 'mapproxy.client.wms']
@@ -312,6 +402,11 @@ def obligations(tier, seed):
             for coverage in (False, True):
                 specs.append(spec(MOD, 'TileSourceAddr', 'tile-source/%s/L%d/%s' % (gname, level, 'cov' if coverage else 'nocov'),
                                   cfg=dict(grid=gname, level=level, coverage=coverage), cost=5))
+    for cov_ in (True, False):
+        for aff in ([2.0, 2.0, 100.0, -50.0], [0.5, 1.5, 0.0, 0.0]):
+            specs.append(spec(MOD, 'Reprojected', 'wms-get-map-other-srs/%s/affine%s' % ('cov' if cov_ else 'nocov', aff[:2]),
+                              cfg=dict(coverage=cov_, size=[256, 256], res=10.0, affine=aff), cost=10))
+    specs.append(spec(MOD, 'Reprojected', 'twin/Reprojected', kind='witness', cfg=dict(coverage=True, size=[256, 256], res=10.0, affine=[2.0, 2.0, 100.0, -50.0])))
     # sources combined into one upstream request stay limited like their parts (C14 harness: coverage, range, SRS, formats kept;
     # a request outside the shared coverage is not sent)
     specs.append(spec('props.C14_merge', 'Compatible', 'combined-source-keeps-its-limits', cfg=dict(differs='shared')))
@@ -335,7 +430,7 @@ META = dict(
                 '(bbox_contains tolerance) and inside the client rectangle, size >= 1x1, dimensions passed on; no request at all '
                 'when the coverage does not intersect or the resolution is outside the range. WMSClient._query_req forwards only '
                 'configured dimension keys; TiledSource.get_map only ever asks for in-grid tiles of the source grid.',
-    functions=sorted(set(WMSGetMap.functions + FwdDimensions.functions + TileSourceAddr.functions)),
+    functions=sorted(set(WMSGetMap.functions + Reprojected.functions + FwdDimensions.functions + TileSourceAddr.functions)),
     bounds='query rectangles of fixed pixel size/resolution anywhere within +-1e7 units; coverage any rectangle >= 1 unit; '
            'tile queries: every in-grid tile and its out-of-grid neighbours',
     outside='_get_transformed (source-side reprojection through pyproj; only reached when the query SRS is unsupported), the HTTP layer, '
